@@ -17,6 +17,8 @@ impl<'ast> Visit<'ast> for LitCollector {
         match l {
             syn::Lit::Str(s) => self.strs.push(s.value()),
             syn::Lit::Float(f) => self.floats.push(f.base10_digits().to_string()),
+            // a float target reads an integer literal's digits through the float parser as well
+            syn::Lit::Int(i) => self.floats.push(i.base10_digits().to_string()),
             _ => {}
         }
     }
